@@ -2024,7 +2024,13 @@ rrul_fill_Mly(echs_instant_t *restrict tgt, size_t nti, rrulsp_t rr)
 	/* set up the wday mask */
 	with (int tmp) {
 		for (bitint_iter_t dowi = 0UL;
-		     (tmp = bi447_next(&dowi, &rr->dow), dowi);) {
+		     (tmp = bi447_next(&dowi, &rr->dow), dowi);)
+#if defined ECHSE_VERIF
+		__CPROVER_assigns(dowi, tmp, wd_mask)
+		__CPROVER_loop_invariant(CUR_OK_447(&rr->dow, dowi) && dowi <= 1000U)
+		__CPROVER_decreases(1000 - (long)dowi)
+#endif	/* ECHSE_VERIF */
+		{
 			if (tmp >= (int)MON && tmp <= (int)SUN) {
 				wd_mask |= (uint8_t)(1U << (unsigned int)tmp);
 			} else {
@@ -2043,7 +2049,13 @@ rrul_fill_Mly(echs_instant_t *restrict tgt, size_t nti, rrulsp_t rr)
 	/* set up the month mask */
 	with (unsigned int tmp) {
 		for (bitint_iter_t moni = 0UL;
-		     (tmp = bui31_next(&moni, rr->mon), moni);) {
+		     (tmp = bui31_next(&moni, rr->mon), moni);)
+#if defined ECHSE_VERIF
+		__CPROVER_assigns(moni, tmp, m_mask)
+		__CPROVER_loop_invariant(CUR_OK_BUI31(moni, rr->mon) && moni <= 64U)
+		__CPROVER_decreases(64 - (long)moni)
+#endif	/* ECHSE_VERIF */
+		{
 			m_mask |= 1U << tmp;
 		}
 	}
@@ -2056,7 +2068,13 @@ rrul_fill_Mly(echs_instant_t *restrict tgt, size_t nti, rrulsp_t rr)
 	/* set up the days masks */
 	with (int tmp) {
 		for (bitint_iter_t domi = 0UL;
-		     (tmp = bi31_next(&domi, rr->dom), domi);) {
+		     (tmp = bi31_next(&domi, rr->dom), domi);)
+#if defined ECHSE_VERIF
+		__CPROVER_assigns(domi, tmp, posd_mask, negd_mask)
+		__CPROVER_loop_invariant(CUR_OK_BI31(domi, rr->dom) && domi <= 64U)
+		__CPROVER_decreases(64 - (long)domi)
+#endif	/* ECHSE_VERIF */
+		{
 			if (tmp > 0) {
 				posd_mask |= 1U << tmp;
 			} else if (tmp < 0) {
@@ -2074,7 +2092,13 @@ rrul_fill_Mly(echs_instant_t *restrict tgt, size_t nti, rrulsp_t rr)
 	/* set up the hour mask */
 	with (unsigned int tmp) {
 		for (bitint_iter_t Hi = 0UL;
-		     (tmp = bui31_next(&Hi, rr->H), Hi);) {
+		     (tmp = bui31_next(&Hi, rr->H), Hi);)
+#if defined ECHSE_VERIF
+		__CPROVER_assigns(Hi, tmp, H_mask)
+		__CPROVER_loop_invariant(CUR_OK_BUI31(Hi, rr->H) && Hi <= 64U)
+		__CPROVER_decreases(64 - (long)Hi)
+#endif	/* ECHSE_VERIF */
+		{
 			H_mask |= 1U << tmp;
 		}
 	}
@@ -2087,7 +2111,13 @@ rrul_fill_Mly(echs_instant_t *restrict tgt, size_t nti, rrulsp_t rr)
 	/* set up the minute mask */
 	with (unsigned int tmp) {
 		for (bitint_iter_t Mi = 0UL;
-		     (tmp = bui63_next(&Mi, rr->M), Mi);) {
+		     (tmp = bui63_next(&Mi, rr->M), Mi);)
+#if defined ECHSE_VERIF
+		__CPROVER_assigns(Mi, tmp, M_mask)
+		__CPROVER_loop_invariant(CUR_OK_BUI63(Mi, rr->M) && Mi <= 128U)
+		__CPROVER_decreases(128 - (long)Mi)
+#endif	/* ECHSE_VERIF */
+		{
 			M_mask |= 1ULL << tmp;
 		}
 	}
@@ -2114,7 +2144,17 @@ rrul_fill_Mly(echs_instant_t *restrict tgt, size_t nti, rrulsp_t rr)
 				     if (w > SUN) {
 					     w = w % 7U ?: SUN;
 				     }
-				     while (d > maxd) {
+				     while (d > maxd)
+#if defined ECHSE_VERIF
+				     __CPROVER_assigns(y, m, d, maxd)
+				     __CPROVER_loop_invariant(
+					     1U <= m && m <= 12U && 1U <= d && d <= 100U && y <= 2200U && y + d <= 2200U &&
+					     maxd == (unsigned int)S_MDAYS(y, m) &&
+					     ((y == __CPROVER_loop_entry(y) && m == __CPROVER_loop_entry(m) && d == __CPROVER_loop_entry(d)) ||
+					      y > __CPROVER_loop_entry(y) || (y == __CPROVER_loop_entry(y) && m > __CPROVER_loop_entry(m))))
+				     __CPROVER_decreases(d)
+#endif	/* ECHSE_VERIF */
+				     {
 					     d--, d %= maxd, d++;
 					     if (++m > 12U) {
 						     y++;
@@ -2124,7 +2164,16 @@ rrul_fill_Mly(echs_instant_t *restrict tgt, size_t nti, rrulsp_t rr)
 				     }
 			     }
 		     }
-	     })) {
+	     }))
+#if defined ECHSE_VERIF
+	__CPROVER_assigns(y, m, d, H, M, w, maxd, res, __CPROVER_object_upto(tgt, 2U * GRP_CCH_OFF * sizeof(*tgt)))
+	__CPROVER_loop_invariant(
+		1U <= m && m <= 12U && 1U <= d && d <= maxd && maxd == (unsigned int)S_MDAYS(y, m) &&
+		1U <= w && w <= 7U && H < 24U && M < 60U && y <= 2200U && res <= nti &&
+		VERIF_DLY_SLOT_OK(tgt, verif_k, res, proto, rr->until))
+	__CPROVER_decreases(2201 - (long)y, 12 - (long)m, 31 - (long)d, 23 - (long)H, 59 - (long)M)
+#endif	/* ECHSE_VERIF */
+	{
 		/* we're subtractive, so check if the current ymd matches
 		 * if not, just continue and check the next candidate */
 		if (!(wd_mask & (1U << w))) {
@@ -2147,7 +2196,16 @@ rrul_fill_Mly(echs_instant_t *restrict tgt, size_t nti, rrulsp_t rr)
 
 		for (ENUM_INIT(e, iS);
 		     /* the cache may be full before the minute is through */
-		     res < nti && ENUM_COND(e, iS); ENUM_ITER(e, iS)) {
+		     res < nti && ENUM_COND(e, iS); ENUM_ITER(e, iS))
+#if defined ECHSE_VERIF
+		/* auto_m, auto_h are the enumeration macros' own variables for the unused indices */
+		__CPROVER_assigns(iS, auto_m, auto_h, res, __CPROVER_object_upto(tgt, 2U * GRP_CCH_OFF * sizeof(*tgt)))
+		__CPROVER_loop_invariant(
+			iS <= e.nS && res <= nti &&
+			VERIF_DLY_SLOT_OK(tgt, verif_k, res, proto, rr->until))
+		__CPROVER_decreases((long)e.nS - (long)iS)
+#endif	/* ECHSE_VERIF */
+		{
 			echs_instant_t x = {
 				.y = y,
 				.m = m,
